@@ -104,7 +104,7 @@ def make_job(src_of, kinds: set, name: str, form: str, pol: str, tt: bool, tm: b
     prints = True
     if tm:
         prints = False
-        if kinds & {'Task', 'Tasks2', 'WaitFor'} or 'asyncio' in name:
+        if kinds & {'Task', 'Tasks2', 'WaitFor'} or 'asyncio' in src_of(True, False):
             exact = False           # only the oracle (see ASSUMPTIONS)
     src = src_of(prints, form == 'callable')
     if tm and ('print(' in src):
@@ -139,7 +139,7 @@ def gen_jobs(rng, tier: str) -> list[dict]:
                 if name == 'syntax-error':
                     continue            # a code object cannot be built from it
                 jobs.append(make_job(lambda p, r, s=src: s, set(), 'fixed:' + name, 'code', pol, True, True, rng))
-    max_size, nrand, per = (2, 60, 1) if tier == 'quick' else (3, 1500, 1)
+    max_size, nrand, per = (2, 60, 1) if tier == 'quick' else (3, 700, 1)
     blocks = list(progen.enumerate_programs(max_size))
     if tier == 'quick':
         # all programs of size 1, a third of the programs of size 2 (rotating with the seed)
@@ -227,19 +227,64 @@ def match_traces(job: dict, ref: dict, per: dict, traces: dict) -> tuple[dict, l
                 break
     m: dict = {}
     used: set = set()
+    by_key: dict = {}
     for s in sorted(per):
-        if s not in first:
+        if s in first:
+            by_key.setdefault(first[s], []).append(s)
+    cands: dict = {}
+    for t in sorted(traces):
+        d = traces[t]
+        if d['calls'] and d['calls'][0][0] == 'call':
+            cands.setdefault((d['calls'][0][1], norm_file(d['calls'][0][2], ref['script_file'])), []).append(t)
+    ambiguous = []
+    for key, ss in by_key.items():
+        ts = cands.get(key, [])
+        if len(ss) > 1 and 0 < len(ts) < len(ss):
+            ambiguous.append((key, ss, ts))         # several threads/tasks start at the same place, not all of them were traced
             continue
-        for t in sorted(traces):
-            d = traces[t]
-            if t in used or not d['calls']:
-                continue
-            c = d['calls'][0]
-            if c[0] == 'call' and (c[1], norm_file(c[2], ref['script_file'])) == first[s]:
-                m[s] = t
+        for s, t in zip(ss, ts):
+            m[s] = t
+            used.add(t)
+    if ambiguous:
+        # which one was traced: the one that started after the same number of prompts of the main thread
+        main = next((s for s in sorted(per) if ref['streams'][s]['main_thread'] and ref['streams'][s]['kind'] == 'thread'), None)
+        seqs, ats = [], []
+        if main is not None and main in m:
+            mp = traces[m[main]]['prompts']
+            seqs = [g for g, _ in align_prompts(per[main], mp, frames, ref['script_file'])]
+            ats = [p['at'] for p in mp[:len(seqs)]]
+        for key, ss, ts in ambiguous:
+            free = list(ss)
+            for t in ts:
+                kt = sum(1 for a in ats if a < traces[t]['at'])
+                pick = next((s for s in free if sum(1 for g in seqs if g < per[s][0][6]) == kt), free[0])
+                free.remove(pick)
+                m[pick] = t
                 used.add(t)
-                break
     return m, [t for t in traces if t not in used]
+
+
+def file_mod_of(frames: list, sfile: str) -> dict:
+    d: dict = {}
+    for fi in frames:
+        d.setdefault(norm_file(fi[2], sfile), fi[0])
+    return d
+
+
+def align_prompts(evs: list, prompts: list, frames: list, sfile: str) -> list:
+    """position in the global order of the reference run of each observed prompt of a trace: the earliest
+    order-preserving alignment of the prompts with the events of its stream"""
+    out = []
+    i = 0
+    for p in prompts:
+        key = (KN.index(p['event']), p['line'], norm_file(p['file'], sfile))
+        while i < len(evs) and (evs[i][1], evs[i][4], norm_file(frames[evs[i][2]][2], sfile)) != key:
+            i += 1
+        if i >= len(evs):
+            break
+        out.append((evs[i][6], evs[i][2]))
+        i += 1
+    return out
 
 
 # ---------------------------------------------------------------- the property oracle (no model)
@@ -260,6 +305,25 @@ def oracle(job: dict, res: dict, ref: dict, per: dict, traces: dict, match: dict
     def is_user_file(f):
         return norm_file(f, sfile) == '<script>'
 
+    # code objects of the user's module seen in the reference run: (code name) -> [(first line, last line)].  A prompt is in the
+    # user's script iff its file is the script's AND its function is one of these (other code can share the file name
+    # '<string>': dataclass-generated methods, exec'd helper code)
+    user_codes: dict = {}
+    other_codes: dict = {}
+    for fi in frames:
+        if norm_file(fi[2], sfile) == '<script>':
+            (user_codes if fi[0] == user else other_codes).setdefault(fi[1], []).append((fi[4], fi[5] if len(fi) > 5 else 10 ** 9))
+
+    def is_user_prompt(p):
+        if not is_user_file(p['file']):
+            return False
+        if not p['func']:
+            return True
+        spans = user_codes.get(p['func'])
+        if spans is None:
+            return False
+        return p['func'] == '<module>' or any(a <= p['line'] <= b for a, b in spans)
+
     callable_off = job['form'] == 'callable' and not tm
     for s, evs in sorted(per.items()):
         info = ref['streams'][s]
@@ -268,10 +332,10 @@ def oracle(job: dict, res: dict, ref: dict, per: dict, traces: dict, match: dict
         prompts = d['prompts'] if d else []
         who = f'{info["kind"]} #{s}' + (f' (trace {t})' if t is not None else '')
         # ---- clauses that hold under every policy
-        stream_locs = [(KN[ev[1]], ev[4]) for ev in evs if norm_file(frames[ev[2]][2], sfile) == '<script>']
+        stream_locs = [(KN[ev[1]], ev[4]) for ev in evs if norm_file(frames[ev[2]][2], sfile) == '<script>' and frames[ev[2]][0] == user]
         it = iter(stream_locs)
         for p in prompts:
-            if is_user_file(p['file']) and not any(x == (p['event'], p['line']) for x in it):
+            if is_user_prompt(p) and not any(x == (p['event'], p['line']) for x in it):
                 bad.append(('prompt-at-location-not-executed',
                             f'{who}: prompt at {p["file"]}:{p["line"]} ({p["event"]}) is not, in this order, an event the thread/task executed'))
                 break
@@ -283,7 +347,7 @@ def oracle(job: dict, res: dict, ref: dict, per: dict, traces: dict, match: dict
                 break
         for p in prompts:
             mod = file_mod.get(norm_file(p['file'], sfile))
-            if not tm and not is_user_file(p['file']):
+            if not tm and not is_user_prompt(p):
                 bad.append(('filters:prompt-outside-script:module-tracing-off', f'{who}: prompted in {p["file"]}:{p["line"]} (module {mod}) with module tracing off'))
                 break
             if tm and mod is not None and any(fnmatch.fnmatch(mod, pt) for pt in pats):
@@ -297,7 +361,7 @@ def oracle(job: dict, res: dict, ref: dict, per: dict, traces: dict, match: dict
         user_lines = [(ev[4], ev[2]) for ev in evs if ev[1] == 1 and frames[ev[2]][0] == user and frames[ev[2]][1] != '<lambda>']
         if not user_lines:
             continue
-        got_lines = [p['line'] for p in prompts if p['event'] == 'line' and is_user_file(p['file']) and p['func'] != '<lambda>']
+        got_lines = [p['line'] for p in prompts if p['event'] == 'line' and is_user_prompt(p) and p['func'] != '<lambda>']
         if pol == 'step':
             want = [l for l, _ in user_lines]
             if got_lines != want:
@@ -404,16 +468,8 @@ def build_cases(job: dict, res: dict, ref: dict, per: dict, traces: dict, match:
     # of the prompts of a trace with the events of its stream): FilerByModule adds the module of every prompt
     prompt_at: list = []
     for s, t in match.items():
-        evs = per[s]
-        i = 0
-        for p in traces[t]['prompts']:
-            key = (KN.index(p['event']), p['line'], norm_file(p['file'], sfile))
-            while i < len(evs) and (evs[i][1], evs[i][4], norm_file(frames[evs[i][2]][2], sfile)) != key:
-                i += 1
-            if i >= len(evs):
-                break
-            prompt_at.append((evs[i][6], frames[evs[i][2]][0], s))
-            i += 1
+        for g, fidx in align_prompts(per[s], traces[t]['prompts'], frames, sfile):
+            prompt_at.append((g, frames[fidx][0], s))
     cases = []
     for s in sorted(per):
         info = ref['streams'][s]
@@ -671,7 +727,7 @@ def correspond(ctx) -> Corr:
     jobs = gen_jobs(ctx.rng, ctx.tier)
     ctx.log(f'{len(jobs)} jobs')
     run(ctx, jobs, corr, seen)
-    run_options(ctx, corr, 120 if ctx.tier == 'quick' else 1500)
+    run_options(ctx, corr, 120 if ctx.tier == 'quick' else 800)
     order_violations(corr)
     ctx.log(f'jobs={corr.evaluations} streams compared={corr.traces_validated} mismatches={len(corr.mismatches)} oracle hits={len(corr.violations)}')
     return corr
